@@ -100,7 +100,12 @@ func c19Do(src string, values map[string]any, opts ...bcl.Option) c19Run {
 // or the lines the program prints; disassembly lists every instruction once
 // at its offset; the trace lists as many instructions as the statistics say.
 func C19_Observe() {
-	src := c19Programs[verif.Choice("prog", len(c19Programs))]
+	progs := c19Programs
+	if verif.Tier() == 1 {
+		// thorough: also the boolean-heavy programs of C10
+		progs = append(append([]string(nil), c19Programs...), c10Programs...)
+	}
+	src := progs[verif.Choice("prog", len(progs))]
 	values := map[string]any{}
 	for _, text := range []string{"1001", "1002", "1003"} {
 		if containsStr(src, text) {
